@@ -16,6 +16,7 @@ import (
 	"strconv"
 	"strings"
 	"sync"
+	"sync/atomic"
 	"testing"
 	"testing/synctest"
 
@@ -249,6 +250,8 @@ type Finding struct {
 	Line     string          `json:"line,omitempty"`
 }
 
+var inKnown atomic.Bool
+
 var (
 	findingsOnce sync.Once
 	findings     []Finding
@@ -274,6 +277,9 @@ func Findings() []Finding {
 // Open reports whether finding id is listed as open, i.e. its input class has to
 // be excluded from generators (and counted).
 func Open(id string) bool {
+	if inKnown.Load() {
+		return false // re-executing a recorded finding: nothing is steered away
+	}
 	for _, f := range Findings() {
 		if f.ID == id && f.Status == "open" {
 			return true
@@ -299,7 +305,9 @@ func Known(t *testing.T, prop string) {
 		if e == nil {
 			continue
 		}
+		inKnown.Store(true)
 		res, err := e.run(f.Script)
+		inKnown.Store(false)
 		if err != nil {
 			fmt.Printf("VERIF-BROKEN known finding %s: %v\n", f.ID, err)
 			t.Errorf("known finding %s: %v", f.ID, err)
